@@ -162,3 +162,10 @@ Definition opt_phase_eqb (A : option mat) (B : mat) : bool :=
   match A with Some A' => phase_eqb A' B | None => false end.
 Definition opt_meqb (A : option mat) (B : mat) : bool :=
   match A with Some A' => meqb A' B | None => false end.
+
+(* ---- serialisation for the harness (exact values printed, parsed by python) ---- *)
+Definition kser (a : K32) : list Z := Z.of_nat (ke a) :: kc a.      (* denominator exponent, then coefficients *)
+Definition mser (A : mat) : list (list (list Z)) := map (map kser) A.
+Definition omser (A : option mat) : list (list (list Z)) := match A with Some A' => mser A' | None => [] end.
+Definition half_units_z (n d : Z) : Z :=
+  match half_units n d with Some k => Z.of_nat k | None => (-1)%Z end.
